@@ -107,14 +107,14 @@ fn backref_icase_body(unicode: bool, fwd: bool) {
     kani::cover!(!r, "a mismatch");
 }
 
-// @verif props=C10,C15,C06 tier=quick timeout=2400 unwind=14 c15=index,safe,index_safe bound="captured text = 1 symbolic scalar not at offset 0, candidate = 1 symbolic scalar; u/v folding; forward" funcs="matchers::backref_icase,Utf8Input::subinput,fold_equals,UTF8CharProperties::fold,unicode::fold"
+// @verif props=C10,C15,C06 tier=quick timeout=2400 unwind=14 c15=index,safe,index_safe c15q=all bound="captured text = 1 symbolic scalar not at offset 0, candidate = 1 symbolic scalar; u/v folding; forward" funcs="matchers::backref_icase,Utf8Input::subinput,fold_equals,UTF8CharProperties::fold,unicode::fold"
 #[kani::proof]
 #[kani::unwind(14)]
 fn c10_backref_icase_unicode_fwd() {
     backref_icase_body(true, true);
 }
 
-// @verif props=C10,C15,C06 tier=quick timeout=2400 unwind=14 c15=index,safe,index_safe bound="captured text = 1 symbolic scalar, candidate before it; u/v folding; backward (lookbehind)" funcs="matchers::backref_icase,Utf8Input::subinput,fold_equals"
+// @verif props=C10,C15,C06 tier=quick timeout=2400 unwind=14 c15=index,safe,index_safe c15q=all bound="captured text = 1 symbolic scalar, candidate before it; u/v folding; backward (lookbehind)" funcs="matchers::backref_icase,Utf8Input::subinput,fold_equals"
 #[kani::proof]
 #[kani::unwind(14)]
 fn c10_backref_icase_unicode_bwd() {
